@@ -87,7 +87,20 @@ pub fn guard<T>(f: impl FnOnce() -> T) -> Result<T, PanicInfo> {
 /// site without the line number's volatility: file + message head (used in violation classes)
 pub fn panic_class(p: &PanicInfo) -> String {
     let file = p.site.split(':').next().unwrap_or("?");
-    let head: String = p.msg.chars().take(48).collect();
+    // digits vary with the input (indices, lengths): normalise them so one defect is one class
+    let mut head = String::new();
+    let mut last_digit = false;
+    for c in p.msg.chars().take(64) {
+        if c.is_ascii_digit() {
+            if !last_digit {
+                head.push('#');
+            }
+            last_digit = true;
+        } else {
+            head.push(c);
+            last_digit = false;
+        }
+    }
     format!("panic@{}:{}", file, head)
 }
 
